@@ -32,6 +32,7 @@ class Stream:
         self.stage = 0              # 0 nothing sent, 1 headers sent, 2 ended, 3 reset by server
         self.sent = 0
         self.sent_events = []       # what the server put on this stream, in order: r | d<n> | e | x<code>
+        self.zero_frames = 0
         self.unacked = 0            # flow-controlled bytes received and not yet credited back (manual credit mode)
 
 
@@ -238,6 +239,8 @@ class ManualH2Peer(simnet.H2Peer):
                     win = min(self.conn.local_flow_control_window(sid), self.conn.max_outbound_frame_size)
                     if win > 0:
                         out.append(("data", self.idx, sid))
+                    if cfg.get("empty_data") and st.zero_frames < 2:
+                        out.append(("zdata", self.idx, sid))      # a zero-length DATA frame in mid-body (legal: RFC 7540 6.1)
                 elif st.ended:
                     out.append(("end", self.idx, sid))
         if not self.auto_credit:
@@ -274,6 +277,11 @@ class ManualH2Peer(simnet.H2Peer):
             if last:
                 st.stage = 2
                 st.sent_events.append("e")
+        elif kind == "zdata":
+            st = self.streams[act[2]]
+            self.conn.send_data(st.sid, b"", end_stream=False)
+            st.zero_frames += 1
+            st.sent_events.append("d0")
         elif kind == "end":
             st = self.streams[act[2]]
             self.conn.end_stream(st.sid)
@@ -432,6 +440,15 @@ class H2Explorer(concur.Explorer):
 
     # ---- oracles ----------------------------------------------------------------------------------------
     def check_quiescent(self, where):
+        # C04: the pool's list and the open network streams stay within the connection limit, GOAWAY or not
+        maxc = self.cfg["max_connections"]
+        conns = self.pool.connections
+        if len(conns) > maxc:
+            self.violations.append(("C04:limit-exceeded", {"where": where, "conns": [c.info() for c in conns]}))
+        closes = sum(1 for p in self.net.pending if not p.done and p.rec["op"] == "close")
+        if len(self.net.open_sockets()) > maxc + closes:
+            self.violations.append(("C04:streams-exceed-limit", {"where": where, "open": self.net.open_sockets(), "max": maxc,
+                                                                   "conns": [c.info() for c in conns]}))
         for p in self.peers:
             if p.errors and not getattr(p, "errors_reported", False):
                 p.errors_reported = True
